@@ -336,6 +336,175 @@ def unit_impl(I, data, clamp_expected):
     return dobs, sobs
 
 
+# --------------------------------------------------------------------------------------------
+# tie C, continued: more vc2.py descriptions as Model/SerDesVC2.v program terms
+# (numbers shared with the Coq file)
+# --------------------------------------------------------------------------------------------
+NAMES = {
+    "parse_parameters": 100, "major_version": 101, "minor_version": 102, "profile": 103, "level": 104,
+    "base_video_format": 105, "video_parameters": 106, "picture_coding_mode": 107, "frame_size": 108,
+    "custom_dimensions_flag": 109, "frame_width": 110, "frame_height": 111, "color_diff_sampling_format": 112,
+    "custom_color_diff_format_flag": 113, "color_diff_format_index": 114, "scan_format": 115,
+    "custom_scan_format_flag": 116, "source_sampling": 117, "frame_rate": 118, "custom_frame_rate_flag": 119,
+    "index": 120, "frame_rate_numer": 121, "frame_rate_denom": 122, "pixel_aspect_ratio": 123,
+    "custom_pixel_aspect_ratio_flag": 124, "pixel_aspect_ratio_numer": 125, "pixel_aspect_ratio_denom": 126,
+    "clean_area": 127, "custom_clean_area_flag": 128, "clean_width": 129, "clean_height": 130, "left_offset": 131,
+    "top_offset": 132, "signal_range": 133, "custom_signal_range_flag": 134, "luma_offset": 135, "luma_excursion": 136,
+    "color_diff_offset": 137, "color_diff_excursion": 138, "color_spec": 139, "custom_color_spec_flag": 140,
+    "color_primaries": 141, "custom_color_primaries_flag": 142, "color_matrix": 143, "custom_color_matrix_flag": 144,
+    "transfer_function": 145, "custom_transfer_function_flag": 146,
+    "prefix_bytes": 150, "qindex": 151, "_sx": 152, "_sy": 153, "y_transform": 154, "c1_transform": 155,
+    "c2_transform": 156, "slice_y_length": 157, "slice_c1_length": 158, "slice_c2_length": 159,
+    "y_block_padding": 160, "c1_block_padding": 161, "c2_block_padding": 162, "c_transform": 163, "c_block_padding": 164,
+    "picture_number": 170, "fragment_data_length": 171, "fragment_slice_count": 172, "fragment_x_offset": 173,
+    "fragment_y_offset": 174,
+}
+TYPE_NAMES = {
+    "dict": 0, "SequenceHeader": 10, "ParseParameters": 11, "SourceParameters": 12, "FrameSize": 13,
+    "ColorDiffSamplingFormat": 14, "ScanFormat": 15, "FrameRate": 16, "PixelAspectRatio": 17, "CleanArea": 18,
+    "SignalRange": 19, "ColorSpec": 20, "ColorPrimaries": 21, "ColorMatrix": 22, "TransferFunction": 23,
+    "HQSlice": 30, "LDSlice": 31, "FragmentHeader": 32,
+}
+
+
+def vtree(I, o):
+    """canonical value syntax of Corr/C21.v for a vc2.py description"""
+    if isinstance(o, bool):
+        return ["B", bool(o)]
+    if isinstance(o, int):
+        return ["I", int(o)]
+    if isinstance(o, I["bitarray"]):
+        return ["Bits", [int(b) for b in o.tolist()]]
+    if isinstance(o, (bytes, bytearray)):
+        return ["Bytes", list(bytearray(o))]
+    if isinstance(o, list):
+        return ["L", [vtree(I, x) for x in o]]
+    if isinstance(o, dict):
+        return ["C", TYPE_NAMES[type(o).__name__], [[NAMES[k], vtree(I, v)] for k, v in o.items()]]
+    raise ValueError("uncanonicalisable %r" % (o,))
+
+
+def real_des_ser(I, driver, data):
+    """the real function under a real Deserialiser, then (when that verified) under a real Serialiser
+    on the resulting description -> (des_obs, ser_obs) in the vocabulary of Corr/C21.v [obs]"""
+    import C21
+    bs = I["bs"]
+    r = bs.BitstreamReader(BytesIO(bytes(bytearray(data))))
+    d = bs.Deserialiser(r)
+    try:
+        with time_limit(5):
+            driver(d)
+    except Exception as e:
+        return ["err", ERR.get(type(e).__name__, 100)], ["err", -1]
+    try:
+        d.verify_complete()
+        v = 0
+    except Exception as e:
+        v = ERR.get(type(e).__name__, 100)
+    dobs = ["ok", [bs.to_bit_offset(*r.tell())], vtree(I, d.context), v]
+    if v != 0:
+        return dobs, ["err", -1]
+    f = BytesIO()
+    w = bs.BitstreamWriter(f)
+    s = bs.Serialiser(w, copy.deepcopy(d.context))
+    try:
+        with time_limit(5):
+            driver(s)
+    except Exception as e:
+        return dobs, ["err", ERR.get(type(e).__name__, 100)]
+    try:
+        s.verify_complete()
+        v2 = 0
+    except Exception as e:
+        v2 = ERR.get(type(e).__name__, 100)
+    w.flush()
+    return dobs, ["ok", list(bytearray(f.getvalue())), vtree(I, s.context), v2]
+
+
+def slice_state(I, rng):
+    """a State with the fields the slice descriptions read"""
+    st = I["State"]()
+    st["dwt_depth"] = rng.choice([0, 1, 1, 2])
+    st["dwt_depth_ho"] = rng.choice([0, 0, 1, 2])
+    st["slices_x"], st["slices_y"] = rng.choice([(1, 1), (2, 1), (2, 2), (3, 2)])
+    mult = 1 << (st["dwt_depth"] + st["dwt_depth_ho"])
+    st["luma_width"] = mult * st["slices_x"] * rng.choice([1, 1, 2])
+    st["luma_height"] = (1 << st["dwt_depth"]) * st["slices_y"] * rng.choice([1, 2])
+    sub = rng.choice([(1, 1), (2, 1), (2, 2)])
+    st["color_diff_width"] = max(1, st["luma_width"] // sub[0])
+    st["color_diff_height"] = max(1, st["luma_height"] // sub[1])
+    return st
+
+
+def band_order(st):
+    if st["dwt_depth_ho"] == 0:
+        out = [(0, "LL")]
+        for level in range(1, st["dwt_depth"] + 1):
+            out += [(level, o) for o in ("HL", "LH", "HH")]
+    else:
+        out = [(0, "L")] + [(level, "H") for level in range(1, st["dwt_depth_ho"] + 1)]
+        for level in range(st["dwt_depth_ho"] + 1, st["dwt_depth_ho"] + st["dwt_depth"] + 1):
+            out += [(level, o) for o in ("HL", "LH", "HH")]
+    return out
+
+
+def coeff_count(I, st, comp, sx, sy):
+    from vc2_conformance.pseudocode import slice_sizes as ss
+    n = 0
+    for level, _orient in band_order(st):
+        n += max(0, ss.slice_bottom(st, sy, comp, level) - ss.slice_top(st, sy, comp, level)) * max(
+            0, ss.slice_right(st, sx, comp, level) - ss.slice_left(st, sx, comp, level))
+    return n
+
+
+def program_cases(I, rng, n):
+    """[(coq program term, driver, data, label)]"""
+    vc2, State = I["vc2"], I["State"]
+    from vc2_conformance.pseudocode.vc2_math import intlog2
+    from vc2_conformance.pseudocode.slice_sizes import slice_bytes
+    out = []
+    for i in range(n):
+        k = i % 4
+        if k == 0:
+            dens = rng.choice([0.2, 0.5, 0.8])
+            data = [sum((rng.random() < dens) << b for b in range(8)) for _ in range(rng.choice([3, 12, 40]))]
+            out.append(("sequence_header_prog", lambda sd: vc2.sequence_header(sd, State()), data, "sequence_header"))
+        elif k == 1:
+            data = [rng.randrange(256) for _ in range(rng.choice([12, 12, 12, 8, 5, 14]))]
+            if rng.random() < 0.5:
+                data[6:8] = [0, rng.choice([0, 0, 1, 3])]
+            out.append(("fragment_header_prog", lambda sd: vc2.fragment_header(sd, State()), data[: max(1, len(data))], "fragment_header"))
+        elif k == 2:
+            st = slice_state(I, rng)
+            st["slice_prefix_bytes"] = rng.choice([0, 0, 1, 3])
+            st["slice_size_scaler"] = rng.choice([1, 1, 2, 3])
+            sx, sy = rng.randrange(st["slices_x"]), rng.randrange(st["slices_y"])
+            data = [rng.randrange(256) for _ in range(st["slice_prefix_bytes"] + 1)]
+            for _ in range(3):
+                ln = rng.choice([0, 0, 1, 2, 4])
+                data += [ln] + [rng.choice([0xFF, 0xFF, rng.randrange(256)]) for _ in range(ln * st["slice_size_scaler"])]
+            if rng.random() < 0.15:
+                data = data[: rng.randrange(len(data))]
+            term = "(hq_slice_prog %d %d %d %d %d %d %d)" % (
+                st["slice_prefix_bytes"], st["slice_size_scaler"], coeff_count(I, st, "Y", sx, sy),
+                coeff_count(I, st, "C1", sx, sy), coeff_count(I, st, "C2", sx, sy), sx, sy)
+            out.append((term, lambda sd, st=st, sx=sx, sy=sy: vc2.hq_slice(sd, st.copy(), sx, sy), data, "hq_slice"))
+        else:
+            st = slice_state(I, rng)
+            n_slices = st["slices_x"] * st["slices_y"]
+            st["slice_bytes_denominator"] = rng.choice([1, 1, 2, 3])
+            st["slice_bytes_numerator"] = st["slice_bytes_denominator"] * rng.choice([2, 3, 6, 12]) + rng.randrange(st["slice_bytes_denominator"])
+            sx, sy = rng.randrange(st["slices_x"]), rng.randrange(st["slices_y"])
+            sb = slice_bytes(st, sx, sy)
+            data = [rng.choice([0xFF, rng.randrange(256), rng.randrange(256)]) for _ in range(sb + rng.choice([0, 0, 2]))]
+            if rng.random() < 0.15:
+                data = data[: rng.randrange(len(data))]
+            term = "(ld_slice_prog %d %d %d %d %d %d)" % (
+                sb, intlog2(8 * sb - 7), coeff_count(I, st, "Y", sx, sy), coeff_count(I, st, "C1", sx, sy), sx, sy)
+            out.append((term, lambda sd, st=st, sx=sx, sy=sy: vc2.ld_slice(sd, st.copy(), sx, sy), data, "ld_slice"))
+    return out
+
+
 def cobs_d(o):
     if o[0] == "err":
         return "(UErr %s)" % cz(o[1])
@@ -348,6 +517,45 @@ def cobs_s(o):
     if o[0] == "err":
         return "(UErr %s)" % cz(o[1])
     return "(USer %s)" % clist(o[1])
+
+
+def bits_of(data, n):
+    return [(data[i // 8] >> (7 - i % 8)) & 1 for i in range(n)]
+
+
+def framework_oracle(ctx, rng, n):
+    """C06_des_ser on the real Serialiser/Deserialiser for random programs of the covered class (no
+    is_target_complete, no negative lengths): deserialise random bytes; when that succeeds and verifies,
+    serialising the description must succeed, write exactly the consumed bits and end with the same description."""
+    import C21
+    J = C21.impl()
+    done = ok = 0
+    while done < n:
+        done += 1
+        prog, feats = C21.gen_program(rng, 0.005)
+        if "is_target_complete" in feats or "negative-length" in feats:
+            continue
+        data = C21.random_bytes(rng, rng.choice([4, 12, 40]))
+        do, des = C21.run_des(J, prog, data)
+        if do[0] != "ok" or do[3] != 0:
+            ctx.count(1, bucket="framework/unparseable")
+            continue
+        nb, tree = do[1][0], do[2]
+        inp = {"framework_prog": prog, "bytes": data}
+        try:
+            so, out, stree = C21.run_ser(J, prog, tree, {})
+        except C21.OutOfDomain:
+            continue
+        ok += 1
+        ctx.count(1, key=C21.count_ops(prog) >= 3 and ("fw", done) or None, bucket="framework/ok")
+        if so[0] != "ok" or so[3] != 0:
+            ctx.violation("framework-des-ser-fails", inp, "serialising the description a program deserialised fails", observed=so[:2] + so[3:], expected="ok")
+        elif len(out) * 8 < nb or bits_of(out, nb) != bits_of(data, nb) or any(bits_of(out, len(out) * 8)[nb:]):
+            ctx.violation("framework-des-ser-bits-differ", inp, "serialising the description a program deserialised does not reproduce the consumed bits",
+                          observed=out, expected=data[: (nb + 7) // 8])
+        elif stree != tree:
+            ctx.violation("framework-des-ser-description-differs", inp, "the serialiser ended with a different description", observed=stree, expected=tree)
+    ctx.note("framework oracle: %d random programs, %d parsed and re-serialised" % (done, ok))
 
 
 def run(ctx):
@@ -382,6 +590,34 @@ def run(ctx):
         ctx.obligation("corr:padding data-unit program agrees with vc2.py parse_info/padding", False, "corr-shard",
                        "cases %r differ (repaired=%s)" % (bad[:10], repaired))
     ctx.note("vc2.py padding/auxiliary_data length is %s" % ("clamped at 0 (repaired tree)" if repaired else "NOT clamped (negative byte counts reach write_bytes)"))
+
+    # ---- tie C: sequence_header / fragment_header / hq_slice / ld_slice as model programs ------------
+    import C21
+    pcases, plabels = [], []
+    for term, driver, data, label in program_cases(I, rng, ctx.pick(480, 6000)):
+        dobs, sobs = real_des_ser(I, driver, data)
+        pcases.append("(%s, %s, %s, %s)" % (term, clist(data), C21.cobs(dobs), C21.cobs(sobs)))
+        plabels.append((label, term, data, dobs[0], sobs[0]))
+        ctx.count(1, key=("prog", len(pcases)) if sobs[0] == "ok" else None, bucket="model-program/%s/%s" % (label, "des-" + dobs[0] + ("+ser-" + sobs[0] if dobs[0] == "ok" else "")))
+        # the property on the implementation for these descriptions
+        if dobs[0] == "ok" and dobs[3] == 0:
+            nb = dobs[1][0]
+            if sobs[0] != "ok" or sobs[3] != 0 or bits_of(sobs[1], nb) != bits_of(data, nb) or sobs[2] != dobs[2]:
+                ctx.violation("vc2-%s-des-ser" % label, {"program": term, "bytes": data},
+                              "deserialise then serialise of a %s does not reproduce the consumed bits / description" % label,
+                              observed=sobs[:2], expected=data[: (nb + 7) // 8])
+    bad = ctx.coq_check_cases("programs", ["Model.SerDes", "Model.SerDesVC2", "Corr.C21", "Corr.C06"], "check_prog", pcases, shard=40, timeout=900)
+    for n_bad, i in enumerate(bad or []):
+        diag = "(not evaluated)"
+        if n_bad < 4:
+            diag = ctx.coq_eval("progdiag_%d" % i, ["Model.SerDes", "Model.SerDesVC2", "Corr.C21", "Corr.C06"],
+                                "model_prog %s %s" % (plabels[i][1], clist(plabels[i][2])))
+        ctx.obligation("corr:%s program agrees with vc2.py (case %d)" % (plabels[i][0], i), False, "corr-shard",
+                       "program %s data %r impl des=%s ser=%s; model: %s" % (
+                           plabels[i][1], plabels[i][2], plabels[i][3], plabels[i][4], diag))
+
+    # ---- the framework on random description programs (statement of C06_des_ser on the implementation) ----
+    framework_oracle(ctx, rng, ctx.pick(2500, 40000))
 
     # ---- hand-made streams -------------------------------------------------------------------
     for label, data in handmade(rng):
@@ -428,6 +664,20 @@ def run(ctx):
 
 def replay(ctx, data):
     I = impl()
+    if "framework_prog" in data["input"]:
+        import C21
+        J = C21.impl()
+        prog, raw = data["input"]["framework_prog"], data["input"]["bytes"]
+        do, _ = C21.run_des(J, prog, raw)
+        print("program:", prog)
+        print("deserialiser:", do)
+        if do[0] == "ok":
+            so, out, stree = C21.run_ser(J, prog, do[2], {})
+            print("serialiser:", so)
+            bad = so[0] != "ok" or so[3] != 0 or bits_of(out, do[1][0]) != bits_of(raw, do[1][0]) or stree != do[2]
+            print("property violated on this input:", bad)
+            return 1 if bad else 0
+        return 0
     b = bytes.fromhex(data["input"]["bytes_hex"])
     print("replaying", data.get("key"), "origin", data["input"].get("origin"), "%d bytes" % len(b))
     r = check_bytes(I, ctx, b, "replay")
